@@ -4,6 +4,7 @@ import (
 	"crypto/sha256"
 	"fmt"
 	"os"
+	"reflect"
 	"sort"
 	"strings"
 
@@ -289,7 +290,7 @@ func partC09(a *hcli.Args, rep *report.Report, univName string, u *schema.Univer
 	// ---- 4a. one process per map-iteration start: every process encodes the same pool once
 	digest := sha256.New()
 	s5 := rep.S("map-iteration-starts")
-	s5.Bounds = "every map-bearing wrapper x reduced-alphabet values x 5 formats encoded once in every shard process; the driver runs one process per map-iteration start (VERIF_MAPROT = shard index: 0..15 quick, 0..63 thorough; runtime overlay fixes hash seeds, so the iteration order of every Go map is a function of its contents and the start) and the digests of all processes must agree"
+	s5.Bounds = "every map-bearing wrapper x reduced-alphabet values x 5 formats encoded once in every shard process, each process taking the formats in its own rotation; the driver runs one process per map-iteration start (VERIF_MAPROT = shard index: 0..15 quick, 0..63 thorough; runtime overlay fixes hash seeds, so the iteration order of every Go map is a function of its contents and the start) and the digests of all processes must agree"
 	for _, w := range u.Wrappers {
 		if !strings.Contains(w.Name, "M") {
 			continue
@@ -302,12 +303,21 @@ func partC09(a *hcli.Args, rep *report.Report, univName string, u *schema.Univer
 			if err != nil {
 				report.Internal("bridge: %v", err)
 			}
-			for _, f := range Formats {
+			// every process takes the formats in its own order (rotation by shard index): what a format emits must not
+			// depend on which format saw the value - or its keys - first
+			outs := map[string]string{}
+			for i := range Formats {
+				f := Formats[(i+a.Shard)%len(Formats)]
 				out, err := encode(f, asMarshaler(ptr))
 				s5.Evaluations++
 				s5.Transitions++
 				s5.Traces++
 				if err == nil {
+					outs[f] = string(out)
+				}
+			}
+			for _, f := range Formats {
+				if out, ok := outs[f]; ok {
 					fmt.Fprintf(digest, "%s|%s|%s\n", w.Name, f, out)
 				}
 			}
@@ -316,6 +326,41 @@ func partC09(a *hcli.Args, rep *report.Report, univName string, u *schema.Univer
 			s5.States++
 		}
 		s5.Class("encoded:" + w.Name[:2])
+	}
+	// partial updates deleting every deletable field of every record with includes: the generated code walks the
+	// included records, whose order must not depend on the generator process either (the driver generates the
+	// bindings under two iteration starts of the generator)
+	for _, w := range u.Wrappers {
+		if w.Kind != schema.Record || len(w.Includes) == 0 {
+			continue
+		}
+		rt, ok := Reg[w.Name+"_PartialUpdate"]
+		if !ok {
+			continue
+		}
+		p := &cPatch{T: w}
+		for _, f := range w.AllFields() {
+			if f.Optional {
+				p.Delete = append(p.Delete, f.Name)
+			}
+		}
+		if len(p.Delete) < 2 {
+			continue
+		}
+		pv, okp := cPatchToGo(p, reflect.PtrTo(rt))
+		if !okp {
+			continue
+		}
+		for _, f := range []string{"json", "header"} {
+			out, err := encodeGo(pv, f)
+			s5.Evaluations++
+			s5.Transitions++
+			s5.Traces++
+			if err == nil {
+				fmt.Fprintf(digest, "patch|%s|%s|%s\n", w.Name, f, out)
+			}
+		}
+		s5.Class("encoded:patch-of-record-with-includes")
 	}
 	if os.Getenv("VERIF_MAPROT") != "" {
 		s5.Class("iteration-start-owned")
